@@ -119,3 +119,30 @@ package certificate
 //@     assert(e2 == nil && len(rem) == 0 && seqeq(c2.Bytes(), b))
 //@   }
 //@ }
+
+// C19: the builder and the direct constructor agree - also when one builder
+// is used twice with different key types (everything executed from the bodies).
+//@ option C19_BuilderAgrees nocontract *
+//@ lemma C19_BuilderAgrees(s1 int, c1 int, s2 int, c2 int) {
+//@   cb := NewCertificateBuilder()
+//@   cb, e0 := cb.WithType(CERT_KEY)
+//@   assume(e0 == nil)
+//@   cb, e1 := cb.WithKeyTypes(s1, c1)
+//@   assume(e1 == nil)
+//@   first, e2 := cb.Build()
+//@   p1, pe1 := BuildKeyTypePayload(s1, c1)
+//@   if e2 == nil {
+//@     assert(pe1 == nil)
+//@     want1, we1 := NewCertificateWithType(CERT_KEY, p1)
+//@     assert(we1 == nil && seqeq(first.Bytes(), want1.Bytes()))
+//@   }
+//@   cb, e3 := cb.WithKeyTypes(s2, c2)
+//@   assume(e3 == nil)
+//@   second, e4 := cb.Build()
+//@   p2, pe2 := BuildKeyTypePayload(s2, c2)
+//@   if e4 == nil {
+//@     assert(pe2 == nil)
+//@     want2, we2 := NewCertificateWithType(CERT_KEY, p2)
+//@     assert(we2 == nil && seqeq(second.Bytes(), want2.Bytes()))
+//@   }
+//@ }
